@@ -19,6 +19,7 @@ PLAN = {
         unit("sys", "TestC02Sys", 3, 20, replay="TestReplayC02Sys", seed_off=950, shrinktime="30s", workers={"quick": 8, "thorough": 16})]},
     "C03": {"level": "exploration", "units": [
         unit("loop", "TestC03", 500, 8000, replay="TestReplayC03", shrinktime="30s"),
+        unit("loop", "TestC03Big", 2, 12, seed_off=700, shrinktime="20s"),
         unit("expl", "TestC03Flood", 3, 8, replay="TestReplayC03Flood", seed_off=900, shrinktime="20s"),
         unit("sys", "TestC03Sys", 3, 20, replay="TestReplayC03Sys", seed_off=950, shrinktime="30s", workers={"quick": 8, "thorough": 16})]},
     "C04": {"level": "exploration", "units": [
@@ -32,10 +33,12 @@ PLAN = {
         unit("sys", "TestC06Sys", 3, 20, replay="TestReplayC06Sys", seed_off=950, shrinktime="30s", workers={"quick": 8, "thorough": 16})]},
     "C07": {"level": "exploration", "units": [
         unit("cyc", "TestC07", 3000, 40000, replay="TestReplayC07"),
-        unit("cyc", "TestC07Hist", 1200, 15000, seed_off=200)]},
+        unit("cyc", "TestC07Hist", 1200, 15000, seed_off=200),
+        unit("loop", "TestC07Loop", 150, 3000, seed_off=700, shrinktime="30s")]},
     "C08": {"level": "exploration", "units": [
         unit("cyc", "TestC08", 3000, 40000, replay="TestReplayC08"),
         unit("cyc", "TestC08Hist", 1200, 15000, seed_off=200),
+        unit("loop", "TestC08Loop", 150, 3000, seed_off=700, shrinktime="30s"),
         unit("cfgh", "TestC08Reload", 150, 2000, replay="TestReplayC08Reload", seed_off=900)]},
     "C09": {"level": "fault_enumeration", "units": [
         unit("side", "TestC09RoundTrip", 300, 4000, replay="TestReplayC09"),
